@@ -476,7 +476,7 @@ def expr_sig(e):
 
 
 # ---- shape-mismatched pairs must be rejected ---------------------------------------------------------------
-MISMATCH_FORMS = ["A@B", "A+B", "A-B", "Product", "Sum", "A@arr", "arr@A", "A+arr", "sum"]
+MISMATCH_FORMS = ["A@B", "A+B", "A-B", "Product", "Sum", "A@arr", "arr@A", "A+arr", "sum", "A@special", "special@A", "A@special", "special@A"]
 
 
 def run_mismatch(ctx, case):
@@ -502,6 +502,19 @@ def run_mismatch(ctx, case):
               "sum": lambda: sum([A, Bop])}[form]
         out = ctx.call(fn)
         kinds = f"{a['k']},{b['k']}"
+    elif form in ("A@special", "special@A"):
+        # operands that the simplification rules of `@` absorb without building a Product (Identity is dropped, scalars and
+        # diagonals are fused): the shape check must happen before that
+        sk = S.pick(rng, ["Identity", "ScalarMul", "Diagonal"])
+        size = k2 if form == "A@special" else (m + int(S.pick(rng, [1, 2])))
+        sp = {"Identity": {"k": "Identity", "n": size, "dt": "f8"}, "ScalarMul": {"k": "ScalarMul", "n": size, "dt": "f8", "c": 2.0},
+              "Diagonal": {"k": "Diagonal", "n": size, "dt": "f8", "seed": 3}}[sk]
+        if sk == "Diagonal" and rng.random() < 0.5:
+            a = {"k": "Diagonal", "n": k if form == "A@special" else m, "dt": "f8", "seed": 4}  # Diagonal @ Diagonal fuses the two diagonals
+            A = B.build(a)
+        Sop = B.build(sp)
+        out = ctx.call((lambda: A @ Sop) if form == "A@special" else (lambda: Sop @ A))
+        kinds = f"{a['k']},{sk}" if form == "A@special" else f"{sk},{a['k']}"
     elif form == "A@arr":
         x = P.operand(case["seed"], (k2, 2), "f8")
         out = ctx.call(lambda: A @ x)
